@@ -21,7 +21,7 @@ func init() { register("C06", runC06) }
 // c06Outcome evaluates one constructor output.
 //
 //	verify1: Verify() of the constructed value; ser: its bytes; reparse: parse + Verify().
-func c06Outcome(c *core.Ctx, site string, sh gen.Shape, verify1 func() error, ser func() ([]byte, error), reparse func(b []byte) (remLen int, verr error, perr error)) {
+func c06Outcome(c *core.Ctx, site string, sh gen.Shape, subject any, verify1 func() error, ser func() ([]byte, error), reparse func(b []byte) (remLen int, verr error, perr error)) {
 	c.Nontrivial([]byte(site), []byte(fmt.Sprint(sh)), []byte(fmt.Sprint(c.Summary().Evaluations)))
 	var v1 error
 	panicked, _, _ := c.Call(site+".Verify", nil, func() { v1 = verify1() })
@@ -31,6 +31,15 @@ func c06Outcome(c *core.Ctx, site string, sh gen.Shape, verify1 func() error, se
 	if v1 != nil {
 		c.Violate(site, "constructed-does-not-verify", sh, nil, firstLineOf(v1.Error()))
 		return
+	}
+	// querying the value (every argument-free accessor) must not change what it verifies as
+	if subject != nil {
+		c.Call(site+".accessors", nil, func() { lib.Observe(subject, lib.ObserveOpts{Depth: 1}) })
+		var v2 error
+		if p, _, _ := c.Call(site+".Verify(again)", nil, func() { v2 = verify1() }); !p && v2 != nil {
+			c.Violate(site, "does-not-verify-after-being-queried", sh, nil, firstLineOf(v2.Error()))
+			return
+		}
 	}
 	b, err := ser()
 	if err != nil {
@@ -111,7 +120,7 @@ func runC06(c *core.Ctx) {
 		if err != nil {
 			return
 		}
-		c06Outcome(c, "router_info.NewRouterInfo", sh,
+		c06Outcome(c, "router_info.NewRouterInfo", sh, ri,
 			func() error { return boolErr(ri.VerifySignature()) },
 			func() ([]byte, error) { return ri.Bytes() },
 			func(b []byte) (int, error, error) {
@@ -156,7 +165,7 @@ func runC06(c *core.Ctx) {
 				c.Bucket("constructor-error/NewLeaseSet/" + firstLineOf(err.Error()))
 				return
 			}
-			c06Outcome(c, "lease_set.NewLeaseSet", sh,
+			c06Outcome(c, "lease_set.NewLeaseSet", sh, ls,
 				func() error { return ls.Verify() },
 				func() ([]byte, error) { return ls.Bytes() },
 				func(b []byte) (int, error, error) {
@@ -212,7 +221,7 @@ func runC06(c *core.Ctx) {
 				if err != nil {
 					return
 				}
-				c06Outcome(c, "lease_set2.NewLeaseSet2", sh,
+				c06Outcome(c, "lease_set2.NewLeaseSet2", sh, ls,
 					func() error { return ls.Verify() },
 					func() ([]byte, error) { return ls.Bytes() },
 					func(b []byte) (int, error, error) {
@@ -294,7 +303,7 @@ func runC06(c *core.Ctx) {
 					c.Bucket("constructor-error/" + site)
 					return
 				}
-				c06Outcome(c, site, sh,
+				c06Outcome(c, site, sh, els,
 					func() error { return els.Verify() },
 					func() ([]byte, error) { return els.Bytes() },
 					func(b []byte) (int, error, error) {
@@ -332,7 +341,7 @@ func runC06(c *core.Ctx) {
 			c.Bucket(fmt.Sprintf("constructor-error/CreateOfflineSignature/dest%d", dt))
 			return
 		}
-		c06Outcome(c, site, sh,
+		c06Outcome(c, site, sh, &os,
 			func() error { return boolErr(os.VerifySignature(key.Pub)) },
 			func() ([]byte, error) { return os.Bytes(), nil },
 			func(b []byte) (int, error, error) {
